@@ -9,8 +9,10 @@ def jNew (A B : Log) : List Entry := difference B.entries B.heads A
 def jEntries (A B : Log) : List Entry := (jNew A B).foldl omSet A.entries
 def jNextIdx (A B : Log) : List Hash := (jNew A B).foldl (fun idx e => e.next.foldl hsSet idx) A.nextIdx
 def jNextsFromNew (A B : Log) : List Hash := (jNew A B).foldl (fun acc e => acc ++ e.next) []
+/-- the heads of the other log this log holds after admission, as the objects it holds -/
+def jAdmitted (A B : Log) : List Entry := B.heads.filterMap (fun h => get? (jEntries A B) h.hash)
 def jHeads (A B : Log) : List Entry :=
-  omFromList ((findHeads (omMerge A.heads B.heads)).filter
+  omFromList ((findHeads (omMerge A.heads (jAdmitted A B))).filter
     (fun e => !(jNextsFromNew A B).contains e.hash && !(jNextIdx A B).contains e.hash && has (jEntries A B) e.hash))
 
 /-- the state after `A.Join(B, -1)` when both carry the same id and every candidate is admitted -/
@@ -211,9 +213,26 @@ theorem mem_jNextsFromNew {h : Hash} : h ∈ jNextsFromNew A B ↔ namedBy (jNew
 
 /-- `join_heads_spec`: the three filters of `Join` keep exactly the merged heads that nothing in the
     merged log names -/
+theorem filterMap_eq_self {α : Type} (f : α → Option α) : ∀ (l : List α), (∀ x ∈ l, f x = some x) → l.filterMap f = l
+  | [], _ => rfl
+  | a :: t, h => by
+    rw [List.filterMap_cons, h a List.mem_cons_self]
+    exact congrArg (a :: ·) (filterMap_eq_self f t (fun x hx => h x (List.mem_cons_of_mem _ hx)))
+
+/-- for two replicas of one log every head of the other log is admitted, as itself -/
+theorem jAdmitted_eq (hU : (hashes U).Nodup) (IA : Inv U A) (IB : Inv U B) (hid : A.id = B.id) :
+    jAdmitted A B = B.heads := by
+  unfold jAdmitted
+  apply filterMap_eq_self
+  intro h hh
+  have hJnodup : (hashes (jEntries A B)).Nodup := by
+    unfold jEntries; exact foldl_omSet_nodup _ _ IA.nodup
+  exact get?_eq_of_mem hJnodup (B_sub_jEntries hU IA IB hid (IB.headsIn h hh))
+
 theorem mem_jHeads (hU : (hashes U).Nodup) (IA : Inv U A) (IB : Inv U B) (hid : A.id = B.id) {x : Entry} :
     x ∈ jHeads A B ↔ (x ∈ A.heads ∨ x ∈ B.heads) ∧ ¬ namedBy (jEntries A B) x.hash := by
   unfold jHeads
+  rw [jAdmitted_eq hU IA IB hid]
   have hfn : (hashes ((findHeads (omMerge A.heads B.heads)).filter
       (fun e => !(jNextsFromNew A B).contains e.hash && !(jNextIdx A B).contains e.hash && has (jEntries A B) e.hash))).Nodup := by
     have := findHeads_nodup (omMerge_nodup A.heads B.heads)
